@@ -1190,24 +1190,74 @@ func (eng *Engine) libraryFuncValue(v ssa.Value, depth int) bool {
 		if x.Op != token.MUL {
 			return false
 		}
-		al, ok := x.X.(*ssa.Alloc)
+		cell := x.X
+		if fv, ok := cell.(*ssa.FreeVar); ok {
+			// a captured variable: look at the variable itself in the enclosing function
+			fn := fv.Parent()
+			idx := -1
+			for i, f := range fn.FreeVars {
+				if f == fv {
+					idx = i
+				}
+			}
+			cell = nil
+			if par := fn.Parent(); par != nil && idx >= 0 {
+				for _, b := range par.Blocks {
+					for _, ins := range b.Instrs {
+						if mc, ok := ins.(*ssa.MakeClosure); ok && mc.Fn == fn && idx < len(mc.Bindings) {
+							cell = mc.Bindings[idx]
+						}
+					}
+				}
+			}
+			if cell == nil {
+				return false
+			}
+		}
+		al, ok := cell.(*ssa.Alloc)
 		if !ok || al.Referrers() == nil {
 			return false
 		}
-		stores := 0
-		for _, r := range *al.Referrers() {
+		return eng.cellHoldsLibraryFuncs(al, depth)
+	}
+	return false
+}
+
+// cellHoldsLibraryFuncs: every assignment to the variable (in its function or in closures capturing it) stores a
+// function value returned by a library call
+func (eng *Engine) cellHoldsLibraryFuncs(al *ssa.Alloc, depth int) bool {
+	stores := 0
+	var check func(refs []ssa.Instruction, self ssa.Value) bool
+	check = func(refs []ssa.Instruction, self ssa.Value) bool {
+		for _, r := range refs {
 			switch u := r.(type) {
 			case *ssa.UnOp, *ssa.DebugRef:
 			case *ssa.Store:
-				if u.Addr != al || !eng.libraryFuncValue(u.Val, depth+1) {
+				if u.Addr != self || !eng.libraryFuncValue(u.Val, depth+1) {
 					return false
 				}
 				stores++
+			case *ssa.MakeClosure:
+				cf, ok := u.Fn.(*ssa.Function)
+				if !ok {
+					return false
+				}
+				for i, b := range u.Bindings {
+					if b == self && i < len(cf.FreeVars) {
+						fv := cf.FreeVars[i]
+						if fv.Referrers() != nil && !check(*fv.Referrers(), fv) {
+							return false
+						}
+					}
+				}
 			default:
 				return false
 			}
 		}
-		return stores > 0
+		return true
 	}
-	return false
+	if !check(*al.Referrers(), al) {
+		return false
+	}
+	return stores > 0
 }
